@@ -98,7 +98,7 @@ def analyse(ctx, sc, evs, ode, spy, exc, focus, lines, pending):
             # inside some accepted step
             inside = any(min(a, b) - 1e-12 <= te <= max(a, b) + 1e-12 for a, b in zip(t[:-1], t[1:])) or len(t) == 1
             ctx.oracle("event-inside-a-step", bool(inside), dict(inp, event=[i, te]), what="event at t=%r lies in no recorded step" % te)
-            if ode.sol is not None:
+            if ode.sol is not None and len(ode.sol) > 0:
                 ctx.oracle("event-state-is-dense-value", bool(np.array_equal(ye, ode.sol(te))), dict(inp, event=[i, te]), key="event-state-vs-dense:" + ("terminal" if terminal_hit else "plain"),
                            what="event state differs from the dense solution at the event time")
             # near a root of g along the exact trajectory: |h_exact(te) - c| small relative to the slope scale
@@ -174,7 +174,7 @@ def analyse(ctx, sc, evs, ode, spy, exc, focus, lines, pending):
                 ctx.oracle("no-event-beyond-the-stop", all((te - x) * d >= -1e-9 for (_, x, _) in reported), dict(inp, events=[(i, x) for i, x, _ in reported], stop=te),
                            what="an event is reported beyond the terminal event at %r: %s" % (te, [(i, x) for i, x, _ in reported]))
                 ctx.oracle("trajectory-monotone", bool(np.all(np.diff(t) * d > 0)), dict(inp, tail=[float(x) for x in t[-4:]]), what="recorded times not monotone after the terminal stop")
-                if ode.sol is not None:
+                if ode.sol is not None and len(ode.sol) > 0:
                     st = [float(x) for x in ode.sol.t_eval]
                     ordered = all(b > a for a, b in zip(st, st[1:]))
                     ctx.oracle("dense-output-ordered-after-stop", ordered and abs((st[-1] if not backward else st[0]) - float(t[-1])) <= 1e-12, dict(inp, t_eval_tail=st[-4:], last_time=float(t[-1])),
